@@ -104,6 +104,7 @@ let s_dberr (r : 'a res) : string = match r with
       | EDup -> "dup" | EDeleted -> "deleted" | EReplaced -> "replaced" | EInvalidDelete -> "invaliddelete"
       | EScraper -> "scraper" | EWrongKind -> "wrongkind" | EEnd -> "end" | _ -> "other")
   | Panic -> "panic" | OutOfFuel -> "fuel"
+let rec drop_int k l = if k = 0 then l else match l with [] -> [] | _ :: r -> drop_int (k - 1) r
 let rec first_n k l = if k = 0 then [] else match l with [] -> [] | x :: r -> x :: first_n (k - 1) r
 
 type hist = { mutable st : db; mutable ast : astate; mutable offsets : n list; names : n list list }
@@ -286,6 +287,77 @@ let run_line (line : string) : string =
       let out = List.init outlen (fun _ -> fill) in
       Printf.sprintf "ctor_filter r=%s fits=%s" (s_res hex_of_bytes (filter_from_parts f out)) (s_bool (wf_afilterb f && fits_filterb f))
   | "dbhist" -> cmd_dbhist t
+  | "evjson" ->
+      let inp = p_b t in let outlen = p_int t in let fill = p_n t in
+      let out = List.init outlen (fun _ -> fill) in
+      (match event_from_json inp out with
+       | Ok ((consumed, ev), buf) ->
+           let acc = (match decode_event ev with
+             | Ok e -> Printf.sprintf "%s %s %s %s %s %s %s" (s_bytes e.e_id) (s_bytes e.e_pk) (s_bytes e.e_sig)
+                         (s_n e.e_kind) (s_n e.e_created) (s_tags e.e_tags) (s_bytes e.e_content)
+             | r -> s_res (fun _ -> "") r) in
+           let js = event_bytes_as_json ev in
+           let re = (match js with
+             | Ok j -> (match event_from_json j (List.init (List.length ev) (fun _ -> n_of_int 170)) with
+                        | Ok ((_, ev2), _) -> s_bool (ev2 = ev) | r -> s_res (fun _ -> "") r)
+             | _ -> "nojson") in
+           Printf.sprintf "evjson r=ok consumed=%d ev=%s tail=%s acc=%s json=%s reparse=%s" (int_of_n consumed)
+             (hex_of_bytes ev) (fnv (drop_int (List.length ev) buf)) acc (s_res hex_of_bytes js) re
+       | r -> "evjson r=" ^ s_res (fun _ -> "") r)
+  | "fljson" ->
+      let inp = p_b t in let outlen = p_int t in let fill = p_n t in
+      let out = List.init outlen (fun _ -> fill) in
+      (match filter_from_json inp out with
+       | Ok ((consumed, fl), buf) ->
+           let acc = (match decode_filter fl with
+             | Ok f -> Printf.sprintf "%s %s %s %s %s %s %s" (s_list s_bytes f.f_ids) (s_list s_bytes f.f_authors)
+                         (s_list s_n f.f_kinds) (s_tags f.f_tags) (s_n f.f_since) (s_n f.f_until) (s_n f.f_limit)
+             | r -> s_res (fun _ -> "") r) in
+           let js = filter_bytes_as_json fl in
+           let re = (match js with
+             | Ok j -> (match filter_from_json j (List.init (List.length fl) (fun _ -> n_of_int 170)) with
+                        | Ok ((_, fl2), _) -> s_bool (fl2 = fl) | r -> s_res (fun _ -> "") r)
+             | _ -> "nojson") in
+           Printf.sprintf "fljson r=ok consumed=%d fl=%s tail=%s acc=%s json=%s reparse=%s" (int_of_n consumed)
+             (hex_of_bytes fl) (fnv (drop_int (List.length fl) buf)) acc (s_res hex_of_bytes js) re
+       | r -> "fljson r=" ^ s_res (fun _ -> "") r)
+  | "tagsjson" ->
+      let inp = p_b t in let outlen = p_int t in let fill = p_n t in
+      let out = List.init outlen (fun _ -> fill) in
+      (match tags_from_json inp out with
+       | Ok (consumed, tg) ->
+           Printf.sprintf "tagsjson r=ok consumed=%d tags=%s acc=%s json=%s" (int_of_n consumed) (hex_of_bytes tg)
+             (s_res s_tags (tags_iter_all tg)) (s_res hex_of_bytes (tags_bytes_as_json tg))
+       | r -> "tagsjson r=" ^ s_res (fun _ -> "") r)
+  | "unescape" ->
+      let inp = p_b t in let cap = p_n t in
+      (match json_unescape inp cap with
+       | Ok (inlen, out) -> Printf.sprintf "unescape r=ok inlen=%d out=%s" (int_of_n inlen) (hex_of_bytes out)
+       | r -> "unescape r=" ^ s_res (fun _ -> "") r)
+  | "escape" ->
+      let inp = p_b t in
+      Printf.sprintf "escape r=%s" (s_res hex_of_bytes (json_escape inp))
+  | "addr" ->
+      let inp = p_b t in
+      (match addr_parse inp with
+       | Ok a -> Printf.sprintf "addr r=ok %s %s %s" (s_n a.a_kind) (s_bytes a.a_author) (s_bytes a.a_d)
+       | r -> "addr r=" ^ s_res (fun _ -> "") r)
+  | "kindclass" ->
+      let k = p_n t in
+      Printf.sprintf "kindclass %s %s %s" (s_bool (is_replaceable k)) (s_bool (is_ephemeral k)) (s_bool (is_param_replaceable k))
+  | "noop" -> "noop"
+  | "canon" ->
+      (* pubkey, created_at, kind, tags, content -> the canonical serialisation that is hashed *)
+      let pk = p_b t in let created = p_n t in let kind = p_n t in let tags = p_tags t in let content = p_b t in
+      let e = { e_id = []; e_pk = pk; e_sig = []; e_kind = kind; e_created = created; e_tags = tags; e_content = content } in
+      Printf.sprintf "canon r=%s" (s_res hex_of_bytes (canon e))
+  | "canonjson" ->
+      let inp = p_b t in
+      (match event_from_json inp (List.init (List.length inp + 1024) (fun _ -> N0)) with
+       | Ok ((_, ev), _) -> (match decode_event ev with
+           | Ok e -> Printf.sprintf "canonjson r=%s" (s_res hex_of_bytes (canon e))
+           | r -> "canonjson r=" ^ s_res (fun _ -> "") r)
+       | r -> "canonjson r=" ^ s_res (fun _ -> "") r)
   | "hll_add" ->
       let p_el t = let i = p_b t in let o = p_n t in (i, o) in
       let a = p_list p_el t in let b = p_list p_el t in
@@ -305,6 +377,7 @@ let run_line (line : string) : string =
   | "hex" ->
       (* read_hex of arbitrary bytes for a 32/64-byte value, then write_hex *)
       let n = p_n t in let s = p_b t in
+      let n = if n = n_of_int 33 then n_of_int 32 else n in   (* 33 = "a pubkey" in the harness protocol *)
       (match read_hex s n with
        | Ok r -> Printf.sprintf "hex r=ok %s w=%s" (hex_of_bytes r) (hex_of_bytes (write_hex r))
        | r -> Printf.sprintf "hex r=%s" (s_res (fun _ -> "") r))
